@@ -664,7 +664,7 @@ def _run(ctx, workdir):
         for k in kks:
             if k < n: g.add(b['name'], b['program'], b['opts'], b['warm'], kill=['before', k], parent=b['id'])
             else: g.add(b['name'], b['program'], b['opts'], b['warm'], kill=['after', n - 1], parent=b['id'])
-    for i in range(ctx.scale(2, 40)):
+    for i in range(ctx.scale(4, 40)):
         c = g.add('big', [], 'optimistic', False); c['timed'] = round(rng.uniform(0.0, 0.25), 3)
     derived = g.cases[len(baselines):]
     res.update(run_cases(derived, template, workdir))
